@@ -191,7 +191,7 @@ def write_evidence(prop, tier, seed, decisions, wall, broken=None):
         cut |= set(r.cut); ext |= set(r.externals)
         lemma_n += len(d.check.lemmas) if r.mode == 'uf' else 0
         viol += len(d.violations); known += len(d.known)
-        if d.check.unwind: bounded.append('%s: loops unwound %d times with unwinding assertions (bounded)' % (d.check.id, d.check.unwind))
+        if d.check.bounded: bounded.append('%s: %s' % (d.check.id, d.check.bounded))
         fns.append(dict(check=d.check.id, function=r.fn, mode=r.mode, obligations=len(r.obligations), discharged=ok_here, verdict=d.verdict,
                         translated_functions_in_closure=r.nfuncs, time_s=round(sum(x.time for x in d.results), 2), misuse=d.check.misuse, note=d.check.note))
         ens = [ob for ob in r.obligations if ob['class'] in ('ensures', 'lib_assert')][:2]
@@ -208,12 +208,13 @@ def write_evidence(prop, tier, seed, decisions, wall, broken=None):
                    'UF-64 mode: 64-bit products of two symbolic operands are treated as mathematical integers (no-overflow assumed; overflow would be UB in the library); only instances of Lean-proved lemma schemas are assumed',
                    'all index magnitudes |x| < 2^40 (INR) in preconditions']
     if broken: assumptions.append('BROKEN RUN: ' + '; '.join(broken)[:500])
-    ev = dict(property_id=prop, tier=tier, seed=seed, level='proof',
+    level = 'other' if bounded else 'proof'
+    ev = dict(property_id=prop, tier=tier, seed=seed, level=level,
               coverage=dict(obligations=obl, discharged=dis, checker_cmd='tools/runner.py %s --tier %s  (per check: goto-cc; goto-instrument --dfcc harness --enforce-contract <fn>; cbmc --sat-solver cadical)' % (prop, tier),
                             trusted_base=trusted, samples=samples or [dict(note='no check ran')], functions_under_contract=fns, per_mode=per_mode, per_class=per_class,
                             lemma_instances=lemma_n, lemma_schemas_proved_by='lean 4 core (lemmas/Lemmas.lean)', solver_time_s=round(solver, 1),
                             bounded=bounded, known_findings_reported=known, vacuity_guard='every check carries a CANARY assertion after the call that must FAIL (reachability of the end of the harness under requires+lemmas)',
-                            explanation='contract-based deductive verification of the functions of /repo this property depends on; see DESIGN.md'),
+                            explanation=('BOUNDED stand-in (not counted as proof): contracts of the real lifecycle code checked by CBMC with all loops fully unwound (unwinding assertions on) for the stated bounds on the number of elements; every failure injection point of every hook is explored symbolically. ' if bounded else '') + 'contract-based deductive verification of the functions of /repo this property depends on; see DESIGN.md'),
               assumptions=assumptions, wall_s=round(wall, 1), violations=viol)
     os.makedirs(os.path.join(vf.VERIF, 'evidence'), exist_ok=True)
     json.dump(ev, open(os.path.join(vf.VERIF, 'evidence', '%s.json' % prop), 'w'), indent=1)
